@@ -36,6 +36,7 @@ type caseRun struct {
 	recov    bool              // a recovery restart happened after the last removal of a packed blob
 	files    []*fileT
 	feats    map[string]bool
+	dead     bool // a recovery failed (known finding): the meta index is in an undefined state, the oracle stops
 }
 
 func newCase(r *hk.Run, label string, zipMax int) *caseRun {
@@ -126,6 +127,9 @@ func (c *caseRun) recv(b *lblob, budget string) (out string, atts []attempt) {
 // sweep asks for every announced blob (fetch, stat, a few sub-ranges), the full enumeration and the
 // whole-file reads, and compares with the reference map and the file bytes.
 func (c *caseRun) sweep(rnd *hk.Rand) {
+	if c.dead {
+		return
+	}
 	keys := append([]string(nil), c.order...)
 	sort.Strings(keys)
 	for _, k := range keys {
@@ -302,8 +306,10 @@ func (c *caseRun) restart(mode string) string {
 	}
 	if len(f) < 1 || f[0] != "ok" {
 		c.fail("recovery-fails:"+f[0], "restart "+mode, "ok", out)
-		// bring the storage back without recovery so that the case can go on
+		// bring the storage back without recovery so that the model comparison can go on; the oracle
+		// stops here: a recovery that died half-way leaves the index in no particular state
 		c.op("restart none")
+		c.dead = true
 		return out
 	}
 	if mode != "none" {
@@ -1028,6 +1034,18 @@ func WitnessOps() map[string][]string {
 	out["F-C04-1"] = append(mk(4000, "k=40"), "dump")
 	out["F-C04-2"] = append(mk(0, "k=3"), "rm "+chunk, "fetch "+chunk, "stat "+chunk, "enum - 10")
 	out["F-C04-3"] = append(mk(0, ""), "rm "+chunk, "fetch "+chunk, "restart fast", "fetch "+chunk, "enum - 10")
+	// F-C04-4: the first pack (name A) is cut after the meta batch of its first zip (32 chunks); the same
+	// bytes under a longer name (a larger file schema blob) put 31 chunks into their first zip
+	g := renamed(f, "probe-with-a-much-longer-file-name.bin")
+	schemaLen := len(f.blobs[len(f.blobs)-1].data)
+	zm := shadowFixedOverhead + shadowPerEntryOverhead + shadowManifestApprox + schemaLen + shadowPerEntryOverhead + 32*len(f.blobs[0].data)
+	ops := mk(zm, "k=3")
+	ops = append(ops, "restart none")
+	tblG := mergeTbl(nil, g)
+	attsG, wholeG, _ := shadowPack(tblG, g.fileRef, zm)
+	last := g.blobs[len(g.blobs)-1]
+	ops = append(ops, "recv "+last.ref.String()+" "+hk.Hex(last.data)+" "+last.kind+" "+oracleWords(attsG, wholeG), "restart fast")
+	out["F-C04-4"] = ops
 	return out
 }
 
@@ -1055,6 +1073,10 @@ func probes(r *hk.Run) {
 	o3 := run(w["F-C04-3"])
 	n = len(o3)
 	r.Probe("F-C04-3", o3[n-4] == "notexist" && o3[n-2] != "notexist", "pack, rm chunk (fetch="+o3[n-4]+"), restart fast ("+o3[n-3]+") -> fetch="+trunc(o3[n-2]))
+	// F-C04-4 (known): reindex panics on two zips with the same whole ref and part index but different data sizes
+	o4 := run(w["F-C04-4"])
+	n = len(o4)
+	r.Probe("F-C04-4", strings.HasPrefix(o4[n-1], "panic"), "cut pack under one name, complete pack of the same bytes under a longer name (recv -> "+o4[n-2]+"), restart fast -> "+o4[n-1])
 }
 
 // bigChunkProbe runs the real-limit variant of F-C04-1 directly on the implementation (no protocol:
